@@ -48,7 +48,7 @@ FLOW_NAMES = ('template_metadata', 'readspec', 'skymask', 'wavevector', 'preproc
               'template_star', 'pca_solve', 'HMF', 'HMF.solve')
 BADINT = -987654
 FINDINGS = {'D-X09-1': 'fewer than four templates (nkeep < 4): IndexError in the eigenvalue-ratio figures before the FITS file is written'}
-CHUNK = 2500
+CHUNK = 6000
 
 
 def S(chars):
@@ -901,7 +901,7 @@ def process(ctx, world, batch, reporter, direction, notes):
         if why:
             reporter.add(c, rep, style, obs, why, direction, classify(c, obs, why))
         else:
-            good.append((c, obs))
+            good.append((c, obs, aux))
             if c['fam'] == 'meta' and obs['how'] == 'raise' and len(obs['named']) == 1:
                 first = aux.get('first', '')
                 if first and obs['named'][0] != first:
@@ -1016,10 +1016,12 @@ def random_main(rng):
 def falsified(good, rng, limit):
     """Accepted (case, observation) pairs with one observed field falsified: the judge must reject every one."""
     out = []
-    for c, obs in good:
+    for c, obs, aux in good:
         if len(out) >= limit:
             break
         o = copy.deepcopy(obs)
+        if (aux.get('open') is True or aux.get('st') == 'open' or aux.get('tail', 'full') not in ('full', 'missing')):
+            continue                      # where the specification leaves the outcome open nothing can be falsified
         if c['fam'] == 'meta':
             if o['how'] == 'return':
                 k = rng.choice(['niter', 'nkeep', 'minuse', 'orig', 'env', 'how', 'object', 'rows'])
@@ -1085,6 +1087,29 @@ def falsified(good, rng, limit):
     return out
 
 
+def solver_contract(ctx):
+    """The stand-ins for the solvers return arrays shaped like the real ones: eigenspectra (nkeep, npix), coefficients
+    (nobj, nkeep).  That is looked up on the real pca_solve / HMF once per run (small synthetic spectra) and recorded."""
+    import pydl.pydlspec2d.spec1d as mod
+    rs = np.random.RandomState(ctx.seed % 2**31)
+    f = rs.normal(size=(6, 40)) + 5.0
+    iv = np.ones((6, 40))
+    seen = {}
+    with quiet(mod):
+        for k in (2, 3, 5):
+            try:
+                a = mod.pca_solve(f.copy(), iv.copy(), niter=2, nkeep=k)
+                b = mod.HMF(f.copy(), iv.copy(), K=k, n_iter=2).solve()
+                seen[k] = [tuple(a['flux'].shape), tuple(a['acoeff'].shape), tuple(b['flux'].shape), tuple(b['acoeff'].shape)]
+            except Exception as ex:
+                seen[k] = '%s: %s' % (type(ex).__name__, str(ex)[:80])
+    ok = all(seen[k] == [(k, 40), (6, k), (k, 40), (6, k)] for k in seen)
+    ctx.cov['parts']['solver_contract'] = {'as_assumed': ok, 'shapes': {str(k): repr(v) for k, v in seen.items()}}
+    if not ok:
+        print('NOTE X09: the real solvers no longer return (nkeep, npix) eigenspectra and (nobj, nkeep) coefficients: %r; the '
+              'stand-ins of this check assume that' % (seen,))
+
+
 def run(ctx):
     core.import_pydl()
     ctx.level = 'model_checking'
@@ -1098,7 +1123,9 @@ def run(ctx):
         'collaborators of template_input (template_metadata - the real one, wrapped -, get_juldate, readspec, skymask, '
         'wavevector, preprocess_spectra, pca_solve, HMF, template_qso, template_star, plt, fits.HDUList.writeto, plot_eig) are '
         'the names it reaches through its module namespace; the heavy ones are recording stand-ins returning small arrays '
-        'of known provenance, so the numerical content of the stages is not exercised here',
+        'of known provenance, so the numerical content of the stages is not exercised here; the solver stand-ins return '
+        'eigenspectra (nkeep, npix) and coefficients (nobj, nkeep) as the real pca_solve / HMF do (looked up once per run: '
+        'coverage.parts.solver_contract); a single spectrum, for which the real solvers return the spectrum alone, is not modelled',
         'TLC integers are 32-bit: numbers in the file have at most 8 digits and a 2-digit exponent, grids use small rationals',
         'the restore of RUN2D / RUN1D by template_input is property C20 and is not judged again',
         'left open (see the module header of spec/Templates.tla): which of several wrong keywords is reported, the '
@@ -1109,6 +1136,7 @@ def run(ctx):
     reporter = Reporter(ctx)
     notes = {}
     rng = random.Random(ctx.seed)
+    solver_contract(ctx)
     cfg = 'MC_Templates_quick.cfg' if ctx.quick else 'MC_Templates_thorough.cfg'
     r = ctx.tlc('MC_Templates.tla', cfg, dump=True, timeout=1500)
     batch, good, n = [], [], 0
@@ -1131,8 +1159,9 @@ def run(ctx):
         elif c['args']:
             ctx.nontriv(('main', json.dumps(c['args'])))
         if c['fam'] == 'run' and len(c['F'][0]) == 26:
-            for rep in clip_reps():
-                batch.append((c, rep, n))
+            for k, rep in enumerate(clip_reps()):
+                if not ctx.quick or (k + n) % 2:
+                    batch.append((c, rep, n))
         else:
             batch.append((c, pick_rep(n) if c['fam'] == 'run' else None, n))
         if n % 700 == 1:
@@ -1144,7 +1173,7 @@ def run(ctx):
         good += process(ctx, world, batch, reporter, 'replay', notes)[:400]
     ctx.cov['parts']['cases_by_family'] = counts
     # ---- code -> spec: random cases
-    nm, nr, na = (500, 300, 400) if ctx.quick else (6000, 3000, 4000)
+    nm, nr, na = (400, 200, 300) if ctx.quick else (6000, 3000, 4000)
     batch = [(random_meta(rng), None, rng.randrange(10**6)) for _ in range(nm)]
     batch += [(cc, pick_rep(rng.randrange(10**6)), rng.randrange(10**6)) for cc in (random_run(rng) for _ in range(nr))]
     batch += [(random_main(rng), None, 0) for _ in range(na)]
@@ -1167,7 +1196,7 @@ def run(ctx):
                                   % (len(missed), len(fals), fals[missed[0]]['obs']))
     reporter.finish()
     ctx.cov['parts']['notes'] = {
-        'refusals_naming_another_wrong_keyword_than_CheckOrder': notes.get('order', 0),
+        'refusals_naming_another_keyword_than_the_first_wrong_one_in_CheckOrder (not documented; open keywords included)': notes.get('order', 0),
         'refused_files_leaving_RUN2D_RUN1D_changed (not documented, template_input restores: C20)': notes.get('env_after_refusal', 0)}
     if notes.get('env_after_refusal'):
         print('NOTE X09: %d refused files left RUN2D / RUN1D at the file\'s values (template_metadata sets them before it '
